@@ -204,6 +204,22 @@ PRIMES = {
 }
 
 
+# The constructor defaults of EdgeCaseHandler (order: NO_INSTANCES, EMPTY_PRED, EMPTY_REF, NORMAL); std NAN.
+DEFAULT_HANDLER = {
+    "std": "NAN",
+    "metrics": {
+        "DSC": ["NAN", "ZERO", "ZERO", "ZERO"],
+        "clDSC": ["NAN", "ZERO", "ZERO", "ZERO"],
+        "IOU": ["NAN", "ZERO", "ZERO", "ZERO"],
+        "ASSD": ["NAN", "INF", "INF", "INF"],
+        "RVD": ["NAN", "NAN", "NAN", "NAN"],
+    },
+}
+PRIMES["handler_custom_all"] = ({"input": "MATCHED_INSTANCE", "imetrics": ["DSC", "IOU", "ASSD", "RVD"], "gmetrics": ["DSC", "IOU", "ASSD", "RVD"],
+                                 "handler": {"std": "ZERO", "metrics": {m: ["ONE", "INF", "ONE", "INF"] for m in ("DSC", "IOU", "ASSD", "RVD", "clDSC")}}},
+                                [0, 0, 0], [1, 1, 0])
+
+
 def run_primes(names):
     for nm in names or []:
         cfg, p, r = PRIMES[nm]
